@@ -196,13 +196,16 @@ OUTER:
 		if ourSnapshot != nil {
 			startTime := time.Now()
 
+			verifPoint("persist.begin")
 			err := s.persistSnapshot(ourSnapshot, s.persisterOptions)
+			verifPoint("persist.beforeNotifyWaiters")
 			for _, ch := range ourPersisted {
 				if err != nil {
 					ch <- err
 				}
 				close(ch)
 			}
+			verifPoint("persist.afterNotifyWaiters")
 			if err != nil {
 				atomic.StoreUint64(&s.iStats.persistEpoch, 0)
 				if err == segment.ErrClosed {
@@ -807,6 +810,7 @@ func (s *Scorch) persistSnapshotDirect(snapshot *IndexSnapshot) (err error) {
 		return err
 	}
 
+	verifPoint("persist.afterSegmentFiles")
 	// we need to swap in a new root only when we've persisted 1 or
 	// more segments -- whereby the new root would have 1-for-1
 	// replacements of in-memory segments with file-based segments
@@ -838,6 +842,7 @@ func (s *Scorch) persistSnapshotDirect(snapshot *IndexSnapshot) (err error) {
 			applied:   make(notificationChan),
 		}
 
+		verifPoint("persist.beforeIntroduce")
 		select {
 		case <-s.closeCh:
 			return segment.ErrClosed
@@ -846,6 +851,7 @@ func (s *Scorch) persistSnapshotDirect(snapshot *IndexSnapshot) (err error) {
 
 		// blockingly wait until the persist has been applied
 		<-persist.applied
+		verifPoint("persist.afterIntroduce")
 	}
 
 	err = tx.Commit()
@@ -853,11 +859,13 @@ func (s *Scorch) persistSnapshotDirect(snapshot *IndexSnapshot) (err error) {
 		return err
 	}
 
+	verifPoint("persist.afterBoltCommit")
 	err = s.rootBolt.Sync()
 	if err != nil {
 		return err
 	}
 
+	verifPoint("persist.afterBoltSync")
 	// allow files to become eligible for removal after commit, such
 	// as file segments from snapshots that came from the merger
 	s.rootLock.Lock()
@@ -1286,6 +1294,7 @@ func (s *Scorch) removeOldData() {
 	}
 	atomic.AddUint64(&s.stats.TotSnapshotsRemovedFromMetaStore, uint64(removed))
 
+	verifPoint("purge.afterBoltCommit")
 	err = s.removeOldZapFiles()
 	if err != nil {
 		s.fireAsyncError(NewScorchError(
@@ -1412,6 +1421,7 @@ func (s *Scorch) removeOldBoltSnapshots() (numRemoved int, err error) {
 		return 0, nil
 	}
 
+	verifPoint("purge.beforeBoltDelete")
 	tx, err := s.rootBolt.Begin(true)
 	if err != nil {
 		return 0, err
@@ -1487,7 +1497,9 @@ func (s *Scorch) removeOldZapFiles() error {
 		fname := f.Name()
 		if filepath.Ext(fname) == ".zap" {
 			if _, exists := liveFileNames[fname]; !exists && !s.ineligibleForRemoval[fname] && (s.copyScheduled[fname] <= 0) {
+				verifPoint("purge.beforeZapRemove")
 				err := os.Remove(s.path + string(os.PathSeparator) + fname)
+				verifPoint("purge.afterZapRemove")
 				if err != nil {
 					log.Printf("got err removing file: %s, err: %v", fname, err)
 				}
